@@ -275,6 +275,13 @@ func (c *MonCache) Last() []byte {
 	return nil
 }
 
+// SetOnWrite installs (or removes) the OnWrite hook while the cache is in use.
+func (c *MonCache) SetOnWrite(f func(n int, data []byte)) {
+	c.mu.Lock()
+	c.OnWrite = f
+	c.mu.Unlock()
+}
+
 // NumFailed returns how many writes were refused by WriteErr.
 func (c *MonCache) NumFailed() int {
 	c.mu.Lock()
